@@ -309,7 +309,7 @@ class GraphStream(Stream):
 
     def gen(self, rng, tier):
         cases = []
-        n = 260 if tier == "quick" else 6000
+        n = 200 if tier == "quick" else 6000
         for _ in range(n):
             r = rng.random()
             kind = "valid" if r < 0.6 else "padded" if r < 0.75 else "odd"
@@ -574,7 +574,7 @@ class NameStream(Stream):
 
     def gen(self, rng, tier):
         cases = []
-        n = 220 if tier == "quick" else 5000
+        n = 160 if tier == "quick" else 5000
         for _ in range(n):
             r = rng.random()
             kind = "valid" if r < 0.6 else "padded" if r < 0.72 else "repeat" if r < 0.8 else "odd"
@@ -677,7 +677,7 @@ def gen_drop(rng):
     for i in range(rng.randint(1, 4)):
         base = rng.choice(["foo", "bar", "baz", "qux", "n1"])
         if rng.random() < 0.25:
-            nodes.append([["lit", base + rng.choice(["", ":start", "[-P1]"])]])
+            nodes.append([["lit", base + rng.choice(["", "", ":start"])]])
         else:
             p = rng.choice(ps)
             it = [p["name"], "off", rng.choice([-1, -1, -1, 1, -2])] if rng.random() < 0.7 else [p["name"], "free"]
@@ -704,8 +704,8 @@ class DropStream(Stream):
     check_fn = "Param.d_check"
     show_fn = "Param.d_model"
     n_hashseeds = 2
-    rule = ("dependencies `n1 op n2 ... => tgt<p>` whose left nodes carry +/- offsets; each expanded left side goes through "
-            "GraphParser.REC_NODE_OUT_OF_RANGE.sub and the whole line through GraphParser.parse_graph; "
+    rule = ("dependencies `n1 op n2 ... => tgt<p>` whose left nodes carry +/- offsets; each expanded left side and the "
+            "whole line go through GraphParser.parse_graph and the nodes left in the graph are read back; "
             "non-trivial = some instance has an out-of-range node")
 
     def corpus(self):
@@ -721,7 +721,7 @@ class DropStream(Stream):
         ]
 
     def gen(self, rng, tier):
-        return [gen_drop(rng) for _ in range(150 if tier == "quick" else 4000)]
+        return [gen_drop(rng) for _ in range(100 if tier == "quick" else 3000)]
 
     def impl(self, cases):
         from cylc.flow.param_expand import GraphExpander
@@ -734,7 +734,11 @@ class DropStream(Stream):
                 pairs = []
                 for ln in sorted(GraphExpander(P).expand(line)):
                     lhs = ln.split("=>")[0]
-                    pairs.append([lhs, GraphParser.REC_NODE_OUT_OF_RANGE.sub("", lhs)])
+                    # the removal as parse_graph performs it: parse the expanded left side on its own
+                    # and read back which nodes are left
+                    g1 = GraphParser()
+                    g1.parse_graph(lhs)
+                    pairs.append([lhs, sorted(g1.original)])
             except Exception as e:  # noqa
                 out.append({"exc": exc_kind(e)})
                 continue
@@ -755,26 +759,29 @@ class DropStream(Stream):
         parts = re.split(r"([&|])", s)
         return parts[0::2], parts[1::2]
 
+    @staticmethod
+    def _name(node):
+        return node.split(":")[0]
+
     def coq_case(self, c, r):
         if "exc" in r:
             return None
         items = []
-        for lhs, sub in r["pairs"]:
+        for lhs, kept in r["pairs"]:
             nodes, ops = self._split(lhs)
-            nd = [q.cpair(q.cbool(MARK in n), q.ccodes(n)) for n in nodes]
+            nd = [q.cpair(q.cbool(MARK in n), q.ccodes(self._name(n))) for n in nodes]
             rest = q.clist(q.cpair(q.cz(ord(o)), n) for o, n in zip(ops, nd[1:]))
-            items.append(q.cpair(q.cpair(nd[0], rest), q.ccodes(sub)))
+            items.append(q.cpair(q.cpair(nd[0], rest), q.clist(q.ccodes(k) for k in kept)))
         return q.crecord(d_items=q.clist(items))
 
     def oracle(self, c, r):
         if "exc" in r:
             return "unexpected exception " + r["exc"]
-        for lhs, sub in r["pairs"]:
+        for lhs, kept in r["pairs"]:
             nodes, _ = self._split(lhs)
-            want = [n for n in nodes if MARK not in n]
-            got = [n for n in self._split(sub)[0] if n]
-            if got != want:
-                return f"out-of-range nodes not dropped: {lhs!r} -> {sub!r}, expected nodes {want}"
+            want = sorted({self._name(n) for n in nodes if MARK not in n})
+            if kept != want:
+                return f"out-of-range nodes not dropped: {lhs!r} leaves nodes {kept}, expected {want}"
         bad = [t for t in (r["tasks"] or []) if MARK in t]
         if bad:
             return f"graph contains out-of-range placeholder tasks {bad}"
